@@ -67,6 +67,8 @@ def cases(tier, seed):
         out.append(dict(id='rand-%d' % idx, kind='rand', seed=seed * 50021 + idx, count=40 if thorough else 12))
     for idx in range(24 if thorough else 6):
         out.append(dict(id='waiter-%d' % idx, kind='waiter', seed=seed * 7907 + idx, count=40 if thorough else 14))
+    for idx in range(8 if thorough else 2):
+        out.append(dict(id='slow-%d' % idx, kind='slow', seed=seed * 4243 + idx, count=30 if thorough else 12))
     # Agent.shutdown(): every contact of the agent, with or without a session, must end (real agents, fake listener sockets)
     idx = 0
     for contacts in (1, 2, 3):
@@ -407,6 +409,97 @@ def run_waiter(params, obs):
     return problems
 
 
+def run_slow_incoming(params, obs):
+    ''' The peer's transfer is in progress when termination is requested and its (single, large) segment arrives slowly but
+    steadily - slower in total than the endpoint's idle time.  The transfer must still complete and be acknowledged, then the
+    SESS_TERM exchange finishes and the endpoint closes.  Variant: the peer's SESS_TERM is followed by one more message in the
+    same write (a KEEPALIVE is legal at any time): the endpoint must still close. '''
+    from vf.world.sim import Sim
+    from vf import tcpcl_harness as th
+    sim = Sim(seed=params['seed'], policy='eager')
+    sock_a, sock_b = sim.net.tcp_pair()
+    cfg = th.make_config('dtn://under-test/', idle_time=params['idle'], keepalive_time=0)
+    if params['role'] == 'passive':
+        end = th.Endpoint(sim, 'E', cfg, sock_b, passive=True, peer_addr=('10.0.0.1', 40001))
+        peer_sock, end_sock = sock_a, sock_b
+    else:
+        end = th.Endpoint(sim, 'E', cfg, sock_a, passive=False, peer_addr=('10.0.0.2', 4556))
+        peer_sock, end_sock = sock_b, sock_a
+    end.start()
+    sim.settle(20000)
+    problems = []
+
+    def write(data):
+        pos = 0
+        while pos < len(data):
+            count = peer_sock.tx.write(data[pos:])
+            if not count:
+                break
+            pos += count
+        sim.settle(50000)
+
+    def seen():
+        return [m for (m, _e) in tw.parse_stream(end_sock.tx.all_bytes())[0]]
+
+    write(tw.encode(dict(type='contact', flags=0)))
+    write(tw.encode(dict(type='SESS_INIT', keepalive=0, segment_mru=2 ** 20, transfer_mru=2 ** 30, nodeid=b'dtn://peer/', ext=[])))
+    payload = bytes(((pos * 11) ^ 0x35) & 0xFF for pos in range(params['length']))
+    seg = tw.encode(dict(type='XFER_SEGMENT', flags=tw.FLAG_START | tw.FLAG_END, transfer_id=7, ext=[tw.transfer_length_ext(len(payload))], data=payload))
+    pieces = [seg[pos:pos + params['piece']] for pos in range(0, len(seg), params['piece'])]
+    term_at = params['term_at']
+    peer_term_sent = False
+    for idx, piece in enumerate(pieces):
+        if idx == term_at:
+            if params['who'] == 'endpoint':
+                try:
+                    end.call('terminate', dbus.Byte(0))
+                    obs['terminate_accepted'] += 1
+                except Exception:  # pylint: disable=broad-except
+                    obs['terminate_refused'] += 1
+                sim.settle(50000)
+        if end_sock.closed:
+            break
+        write(piece)
+        sim.advance(params['gap_ns'])
+        sim.settle(50000)
+    obs['runs'] += 1
+    obs['slow_incoming_runs'] = obs.get('slow_incoming_runs', 0) + 1
+    what = '%s endpoint, idle time %d s, a %d-octet segment arriving in %d pieces %.2f s apart, termination by %s at piece %d' % (
+        params['role'], params['idle'], len(seg), len(pieces), params['gap_ns'] / 1e9, params['who'], term_at)
+    msgs = seen()
+    acks = [m for m in msgs if m['type'] == 'XFER_ACK' and m['transfer_id'] == 7]
+    fin = [ev for ev in sim.hist.signals('recv_bundle_finished')]
+    terms = [m for m in msgs if m['type'] == 'SESS_TERM']
+    idle_terms = [m for m in terms if m['reason'] == 1]
+    errs = sim.world.callback_errors
+    if errs:
+        return [('raised', '%s: callback %s raised %s' % (what, errs[0].source, errs[0].exc_type))]
+    if idle_terms and params['who'] != 'endpoint':
+        problems.append(('slow/idle-term', '%s: the endpoint declared the session idle (SESS_TERM idle-timeout) while octets kept arriving' % what))
+    if not (acks and acks[-1]['flags'] & tw.FLAG_END and acks[-1]['length'] == len(payload)) or not fin:
+        problems.append(('slow/cut', '%s: the transfer in progress was not completed and acknowledged (ACKs %s, finished signals %d, socket closed %s)' % (
+            what, [(m['flags'], m['length']) for m in acks], len(fin), end_sock.closed)))
+        return problems
+    # now the SESS_TERM exchange: the peer sends or answers SESS_TERM (+ optionally one more message in the same write)
+    terms = [m for m in seen() if m['type'] == 'SESS_TERM']
+    trailing = dict(none=b'', keepalive=tw.encode(dict(type='KEEPALIVE')), reject=tw.encode(dict(type='MSG_REJECT', reason=2, rej_msg_id=4)))[params['trailing']]
+    if not end_sock.closed:
+        write(tw.encode(dict(type='SESS_TERM', flags=1 if terms else 0, reason=0)) + trailing)
+        # (with an idle time configured, closing when it next expires still counts as closing in bounded time)
+        sim.advance((2 * params['idle'] + 1) * 10 ** 9)
+        sim.settle(50000)
+    obs['waiter_terminations'] += 1
+    terms = [m for m in seen() if m['type'] == 'SESS_TERM']
+    if len(terms) != 1:
+        problems.append(('sess-term', '%s: the endpoint sent %d SESS_TERM' % (what, len(terms))))
+    if not end_sock.closed:
+        problems.append(('half-open', '%s: both SESS_TERM exchanged (the peer\'s followed by %s in the same write), nothing is in progress, but the endpoint is '
+                         'still open at quiescence' % (what, params['trailing'])))
+    else:
+        obs['waiter_closed_by_endpoint'] += 1
+    return problems
+
+
 def classify(kind, text):
     return None
 
@@ -476,6 +569,23 @@ def run_case(case):
                 sample = dict(waiter=params)
             for (kind, text) in problems:
                 violations.append(dict(key=classify(kind, text), what='[waiter/%s] %s (%s)' % (kind, text, sorted(params.items())), detail=dict(params=params)))
+    elif case['kind'] == 'slow':
+        rng = random.Random(case['seed'])
+        for idx in range(case['count']):
+            idle = rng.choice([0, 2, 4, 10])
+            pieces = rng.choice([8, 20, 45])
+            length = rng.choice([900, 12000, 40000])
+            params = dict(seed=case['seed'] * 100 + idx, role=rng.choice(['active', 'passive']), idle=idle, length=length,
+                          piece=max(1, (length + 40) // pieces), gap_ns=int(rng.choice([0.3, 0.6, 0.9]) * (idle or 0.01) * 1e9 * (1 if idx % 3 else 0.1)),
+                          who=rng.choice(['endpoint', 'endpoint', 'peer']), term_at=rng.choice([0, 1, 3, 7]),
+                          trailing=rng.choice(['none', 'keepalive', 'reject', 'keepalive']))
+            problems = run_slow_incoming(params, obs)
+            evaluations += 1
+            classes.add('slow|%s' % sorted((k, str(v)) for k, v in params.items()))
+            if sample is None:
+                sample = dict(slow=params)
+            for (kind, text) in problems:
+                violations.append(dict(key=classify(kind, text), what='[%s] %s' % (kind, text), detail=dict(params=params)))
     elif case['kind'] == 'cuts':
         scn = dict(BASES[case['base']], id=case['base'], seed=case['seed'])
         base_run, base_res = scen.execute(scn, max_steps=60000)
